@@ -241,6 +241,7 @@ def f_core():
     add("hyphen-opt", cmd("p", [arg("o", "o", "opt", hyphen=True), arg("f", "f", "flag", action="SetTrue"), arg("p1")]))
     add("hyphen-opt-multi", cmd("p", [arg("o", "o", "opt", hyphen=True, num=(1, 2)), arg("f", "f", "flag", action="SetTrue")]))
     add("hyphen-pos", cmd("p", [arg("f", "f", "flag", action="SetTrue"), arg("p1", hyphen=True, num=(0, None))]))
+    add("hyphen-pos+opt", cmd("p", [arg("o", "o", "opt"), arg("m", "m", "multi", num=(1, 2)), arg("p1", hyphen=True, num=(0, None))]), extra=["--zz=1"])
     add("negnum-pos", cmd("p", [arg("f", "f", action="SetTrue"), arg("n", "n", "num", negnum=True), arg("p1", negnum=True)]), extra=["-1.5", "-1e3"])
     add("aliases", cmd("p", [arg("o", "o", "opt", aliases=["alt", "other"]), arg("f", "f", "flag", aliases=["fl"], action="SetTrue")]))
     add("infer-long", cmd("p", [arg("v1", long="verbose", action="SetTrue"), arg("v2", long="version2", action="SetTrue"),
